@@ -23,6 +23,10 @@ def build(rnd):
     n_if = rnd.choice([1, 2, 3])
     names = ['org.verif.P%d' % k for k in range(n_if)]
     pnames = ['Alpha', 'Beta', 'Gamma']
+    if rnd.random() < 0.25:
+        # names whose concatenations coincide ('org.verif.A' + 'bbC' == 'org.verif.Ab' + 'bC' == ...): still different properties
+        names = ['org.verif.A', 'org.verif.Ab', 'org.verif.Abb'][:n_if]
+        pnames = ['bbC', 'bC', 'C']
     decl, model = {}, {}
     for n in names:
         props = {}
